@@ -177,6 +177,13 @@ func cmdCheck(args []string) int {
 		quickSec, fullSec = 10, 120
 	}
 	expected, order := loadExpected(prop)
+	if tier == "thorough" {
+		e2, o2 := loadExpected(prop + ".thorough")
+		for k := range e2 {
+			expected[k] = true
+		}
+		order = append(order, o2...)
+	}
 	findings := loadKnownFindings()
 	replayDir := filepath.Join(verifRoot, "replays", prop)
 	os.MkdirAll(replayDir, 0o755)
@@ -332,8 +339,9 @@ func cmdClaim(args []string) int {
 		fmt.Fprintln(os.Stderr, err)
 		return 2
 	}
-	out := runProperty(w, prop, 3, 20, nil)
+	out := runProperty(w, prop, 3, 60, nil)
 	var names []string
+	var slowNames []string
 	slow := 0
 	wild := map[string]bool{}
 	for _, r := range out.results {
@@ -358,6 +366,11 @@ func cmdClaim(args []string) int {
 				fmt.Printf("  not claimed (%s): %s\n", statusOf(o), o.Name)
 				continue
 			}
+			if o.WantSat {
+				// vacuity guards (requires-sat, loop cover) are satisfiability queries: best-effort diagnostics,
+				// reported in the evidence but never claimed (a solver timeout on them must not raise an alarm)
+				continue
+			}
 			if isSafetyKind(o.Kind) {
 				if kindAll[o.Kind] {
 					wc := o.Fn + "/" + o.Kind + "#*"
@@ -369,8 +382,16 @@ func cmdClaim(args []string) int {
 				continue
 			}
 			if o.Res.Ms > 8000 {
+				// proved, but too slow for the quick tier: claimed in the thorough tier only
 				slow++
-				fmt.Printf("  not claimed (slow %dms): %s\n", o.Res.Ms, o.Name)
+				fmt.Printf("  thorough tier only (slow %dms): %s\n", o.Res.Ms, o.Name)
+				if isSafetyKind(o.Kind) {
+					slowNames = append(slowNames, o.Name)
+				} else if i := strings.LastIndex(o.Name, "@b"); i >= 0 {
+					slowNames = append(slowNames, o.Name[:i]+"@*")
+				} else {
+					slowNames = append(slowNames, o.Name)
+				}
 				continue
 			}
 			if i := strings.LastIndex(o.Name, "@b"); i >= 0 {
@@ -394,6 +415,20 @@ func cmdClaim(args []string) int {
 		sb.WriteString(n + "\n")
 	}
 	os.WriteFile(filepath.Join(verifRoot, "expected", prop+".txt"), []byte(sb.String()), 0o644)
+	var sb2 strings.Builder
+	sb2.WriteString("# additional obligations claimed for " + prop + " in the thorough tier only (proved, but slower than the quick-tier claiming rule allows)\n")
+	inQuick := map[string]bool{}
+	for _, n := range names {
+		inQuick[n] = true
+	}
+	seen := map[string]bool{}
+	for _, n := range slowNames {
+		if !inQuick[n] && !seen[n] {
+			seen[n] = true
+			sb2.WriteString(n + "\n")
+		}
+	}
+	os.WriteFile(filepath.Join(verifRoot, "expected", prop+".thorough.txt"), []byte(sb2.String()), 0o644)
 	fmt.Printf("claimed %d obligations for %s (%d too slow)\n", len(names), prop, slow)
 	return 0
 }
